@@ -151,10 +151,21 @@ def named_options(msg):
     return set(re.findall(r"[A-Za-z0-9_+-]+", msg))
 
 
+def path_fault(lines, who):
+    """path() of every node of a dumped tree must be the dotted names of its ancestors (checked in the driver)"""
+    pi = first(lines, "paths")
+    if pi and pi[0]:
+        return (who + ":path-bookkeeping", "%d node(s) with a wrong path(), e.g. %s" % (pi[0], pi[1]))
+    return None
+
+
 def judge_process(exp, lines):
     """returns None or (key, text)"""
     tree = first(lines, "tree")
     msg = first(lines, "exc")
+    pf = path_fault(lines, "ProcessUserInput")
+    if pf:
+        return pf
     if tree is None and msg is None:
         return ("ProcessUserInput:driver", "no observation: %s" % lines)
     errs = [tuple(e) for e in exp["errs"]]
@@ -195,6 +206,9 @@ def judge_calcopts(copt, lines):
     tree = first(lines, "tree")
     if tree is None:
         return ("CalculatorOptions:failed", "no tree: %s" % lines)
+    pf = path_fault(lines, "CalculatorOptions")
+    if pf:
+        return pf
     if [(n[0], n[1]) for n in tree] != [(n[0], n[1]) for n in copt]:
         return ("CalculatorOptions:structure",
                 "links not resolved as documented (children appended in order): got %s expected %s"
@@ -355,7 +369,8 @@ def part_shipped(ctx, exe, work):
                         ctx.sample({"shipped_" + kind: {"calc": r["calc"], "user": r["user"],
                                                        "errs": r["exp"]["errs"], "resolved_nodes": len(r["exp"]["nodes"])}})
                         break
-    for need in ("calcopts", "single", "invalid", "undecl", "free", "list", "sample", "empty"):
+    for need in ("calcopts", "single", "invalid", "undecl", "free", "list", "sample", "empty",
+                 "uattr", "battr", "emptyval", "biglist"):
         if not kinds.get(need):
             raise vlib.InfraError("scenario kind %s never generated" % need)
     ctx.extra["shipped_scenarios"] = kinds
@@ -378,6 +393,8 @@ def tree_cmp(want, got, trim=False):
             return "value", "node %r has value %r, expected %r" % (w[1], g[2], w[2])
         if dict((k, v) for k, v in w[3]) != g[3]:
             return "attributes", "node %r has attributes %r, expected %r" % (w[1], g[3], w[3])
+        if len(w) > 4 and len(g) > 5 and w[4] != g[5]:
+            return "path", "node %r has path() %r, expected %r" % (w[1], g[5], w[4])
         if len(g) > 4 and not g[4]:
             return "index", "name index of node %r disagrees with its child list" % (w[1],)
     return None
@@ -484,6 +501,16 @@ def part_xml(ctx, exe, work):
         if d:
             ctx.violation("Property:xml-roundtrip:%s:%s" % (where, d[0]),
                           "%s (printed %r)" % (d[1], first(out, "xml")), r)
+            continue
+        pf = path_fault(out, "Property:xml-roundtrip")
+        if pf:
+            ctx.violation(pf[0], pf[1], r)
+        # same data a second time through print and load: still the same tree
+        tree2 = first(out, "tree2")
+        d = ("unreadable", "second generation does not load: %s" % first(out, "exc")) if tree2 is None \
+            else tree_cmp(r["exp"], tree2, trim=True)
+        if d:
+            ctx.violation("Property:xml-roundtrip-twice:%s:%s" % (where, d[0]), d[1], r)
     for r in recs:
         if any("&" in n[2] for n in r["t"]):
             ctx.sample({"xml_roundtrip": r})
@@ -558,7 +585,7 @@ def part_literals(ctx, exe, work):
     # (spec class field, spec value field or None, driver field, name)
     types = (("b", "bv", "b", "bool"), ("i", "iv", "i", "Index"), ("v", "vv", "v", "vector<Index>"),
              ("v3", None, "v3", "Vector3<Index>"), ("f", None, "f", "double"), ("fv", None, "fv", "vector<double>"),
-             ("fv", None, "ev", "VectorXd"))
+             ("fv", None, "ev", "VectorXd"), ("d3", None, "d3", "Vector3d"))
     for i, r in enumerate(recs):
         ctx.count()
         if any(r[t[0]] == "valid" for t in types):
@@ -585,10 +612,218 @@ def part_literals(ctx, exe, work):
                 ctx.violation("as<double>:wrong-value", "as<double>(%r) = %s, expected %s" % (r["s"], got["f"]["val"], want), r)
         if r["v3"] == "valid" and got["v3"]["ok"] and got["v3"]["val"] != r["vv"]:
             ctx.violation("as<Vector3<Index>>:wrong-value", "as(%r) = %r, expected %r" % (r["s"], got["v3"]["val"], r["vv"]), r)
+        # as<vector<string>>: never an error, the words in order
+        if not got["sv"]["ok"]:
+            ctx.violation("as<vector<string>>:rejects-documented-literal", "as<vector<string>>(%r) throws" % r["s"], r)
+        elif r["svc"] and got["sv"]["val"] != list(r["sv"]):
+            ctx.violation("as<vector<string>>:wrong-value", "as<vector<string>>(%r) = %r, expected %r" % (r["s"], got["sv"]["val"], r["sv"]), r)
+        # Vector3d of integer words: exact values
+        if r["v3"] == "valid" and got["d3"]["ok"] and [float(x) for x in got["d3"]["val"]] != [float(x) for x in r["vv"]]:
+            ctx.violation("as<Vector3d>:wrong-value", "as<Vector3d>(%r) = %r, expected %r" % (r["s"], got["d3"]["val"], r["vv"]), r)
+    guard(ctx, "literals: a valid Vector3d and a 3-word string vector occur",
+          any(r["d3"] == "valid" for r in recs) and any(len(r["sv"]) == 3 for r in recs))
     for r in recs:
         if r["v"] == "valid" and len(r["vv"]) == 2:
             ctx.sample({"literal": r})
             break
+
+
+def guard(ctx, what, cond):
+    """vacuity guard: the quick tier must really contain the cases a layer was written for"""
+    ctx.extra.setdefault("vacuity_guards", []).append(what)
+    if not cond:
+        raise vlib.InfraError("vacuity guard failed: " + what)
+
+
+# ------------------------------------------------------------------------------------------
+# part 6: one OptionsHandler used repeatedly, setAdditionalChoices (mode H)
+# ------------------------------------------------------------------------------------------
+
+def part_session(ctx, exe, work):
+    mod = "MCSessQuick" if ctx.quick else "MCSessThorough"
+    res = vlib.tlc("options", mod, cfg=mod + ".cfg", timeout=3000)
+    vlib.tlc_must_hold(res, "OptSession: additional choices only remove choice errors")
+    ctx.add_tlc(mod, res)
+    hists = res.records
+    if not hists:
+        raise vlib.InfraError("no histories from " + mod)
+    ddir = os.path.join(work, "sess")
+    os.makedirs(os.path.join(ddir, "subpackages"), exist_ok=True)
+    with open(os.path.join(ddir, "t.xml"), "w") as f:
+        f.write(flat_to_xml(hists[0]["desc"]))
+    items = []
+    for i, r in enumerate(hists):
+        cmds = ["hs " + json.dumps({"op": "new", "dir": ddir + "/"})]
+        for e in r["h"]:
+            if e["op"] == "extra":
+                cmds.append("hs " + json.dumps({"op": "extra", "list": sorted(e["list"])}))
+            elif e["op"] == "process":
+                cmds.append("hs " + json.dumps({"op": "process", "calc": "t", "user": e["user"]}))
+            else:
+                cmds.append("hs " + json.dumps({"op": "calcopts", "calc": "t"}))
+        items.append((i, cmds))
+    results, crashes = vlib.run_items(exe, items, args=(work,))
+    bypassed = after_fail = after_calc = 0
+    for i, r in enumerate(hists):
+        ctx.traces += 1
+        ctx.nontriv(("sess", json.dumps([(e["op"], e.get("user"), sorted(e.get("list", []))) for e in r["h"]])))
+        if i in crashes:
+            ctx.violation("OptionsHandler:session:crash", "driver aborted: " + crashes[i], r)
+            continue
+        prev = None
+        for j, e in enumerate(r["h"]):
+            out = results[i][j + 1]
+            v = None
+            if e["op"] == "process":
+                v = judge_process(e["exp"], out)
+                ok = not e["exp"]["errs"]
+                bypassed += 1 if e["bypassed"] else 0
+                after_fail += 1 if (prev == "failed" and ok) else 0
+                after_calc += 1 if prev == "calcopts" else 0
+                prev = "ok" if ok else "failed"
+                if v:
+                    tag = "with-additional-choices" if e["extra"] else ("after-" + str(r["h"][j - 1]["op"]) if j else "first")
+                    v = (v[0].replace("ProcessUserInput:", "OptionsHandler:session:%s:" % tag), v[1])
+            elif e["op"] == "calcopts":
+                v = judge_calcopts(e["copt"], out)
+                prev = "calcopts"
+            if v:
+                ctx.violation(v[0], "step %d of %s: %s" % (j, [(x["op"], x.get("user"), x.get("list")) for x in r["h"]], v[1]), r)
+                break
+    guard(ctx, "session: additional choices turn a rejected input into an accepted one (%d), a call follows a failed "
+               "call (%d) and a CalculatorOptions call (%d) on the same handler" % (bypassed, after_fail, after_calc),
+          bypassed > 0 and after_fail > 0 and after_calc > 0)
+    ctx.sample({"handler_session": [(e["op"], e.get("user"), e.get("list")) for e in hists[len(hists) // 2]["h"]]})
+
+
+# ------------------------------------------------------------------------------------------
+# part 7: LoadFromXML on hand-written documents (comments, CDATA, entities, line structure)
+# ------------------------------------------------------------------------------------------
+
+def part_load(ctx, exe, work):
+    mod = "MCLoadQuick" if ctx.quick else "MCLoadThorough"
+    res = vlib.tlc("proptree", mod, cfg=mod + ".cfg", timeout=3000)
+    vlib.tlc_must_hold(res, "XmlLoad")
+    ctx.add_tlc(mod, res)
+    recs = res.records
+    items = [(i, ["load " + json.dumps({"xml": r["xml"], "crlf": r["crlf"]})]) for i, r in enumerate(recs)]
+    results, crashes = vlib.run_items(exe, items, args=(work,))
+    seen = set()
+    for i, r in enumerate(recs):
+        ctx.count()
+        # one category per document: the most specific construct it contains
+        kinds = next((k for k in ("cdata", "entity", "comment", "element", "text") if k in r["kinds"]), "empty")
+        seen.update(r["kinds"])
+        seen.add("crlf" if r["crlf"] else "lf")
+        seen.add("no-final-newline" if not r["xml"].endswith("\n") else "final-newline")
+        ctx.nontriv(("load", r["xml"], r["crlf"]))
+        if i in crashes:
+            ctx.violation("Property:LoadFromXML:crash", "driver aborted: " + crashes[i], r)
+            continue
+        out = results[i][0]
+        tree = first(out, "tree")
+        if tree is None:
+            ctx.violation("Property:LoadFromXML:%s:rejected" % kinds, "well-formed document %r rejected: %s" % (r["xml"], first(out, "exc")), r)
+            continue
+        d = tree_cmp(r["exp"], tree)
+        if d:
+            ctx.violation("Property:LoadFromXML:%s:%s" % (kinds, d[0]), "%s (document %r%s)" % (d[1], r["xml"], ", CRLF" if r["crlf"] else ""), r)
+            continue
+        pf = path_fault(out, "Property:LoadFromXML")
+        if pf:
+            ctx.violation(pf[0], pf[1], r)
+    guard(ctx, "load: cdata, comment, entity, element pieces, CRLF and missing final newline all occur (%s)" % sorted(seen),
+          {"cdata", "comment", "entity", "element", "text", "crlf", "no-final-newline"} <= seen)
+    ctx.sample({"load": recs[len(recs) // 2]})
+
+
+# ------------------------------------------------------------------------------------------
+# part 8: edge of the domain - 10^5 children under one node
+# ------------------------------------------------------------------------------------------
+
+def part_bulk(ctx, exe, work):
+    res = vlib.tlc("proptree", "MCBulk", cfg="MCBulk.cfg", timeout=600, workers=2)
+    vlib.tlc_must_hold(res, "Bulk: closed forms partition the children")
+    ctx.add_tlc("MCBulk", res)
+    recs = [r for r in res.records if ctx.quick is False or r["n"] <= 100000]
+    items = [(i, ["bulk " + json.dumps({"n": r["n"], "k": r["k"]})]) for i, r in enumerate(recs)]
+    results, crashes = vlib.run_items(exe, items, args=(work,))
+    for i, r in enumerate(recs):
+        ctx.count()
+        ctx.nontriv(("bulk", r["n"], r["k"]))
+        size = "large" if r["n"] >= 1000 else "small"
+        if i in crashes:
+            ctx.violation("Property:bulk:%s:crash" % size, "driver aborted: " + crashes[i], r)
+            continue
+        got = first(results[i][0], "bulk")
+        if got is None:
+            ctx.violation("Property:bulk:%s:failed" % size, "no observation: %s" % results[i][0], r)
+            continue
+        want_last = [None if x < 0 else str(x) for x in r["last"]]
+        want_last2 = [None if x < 0 else str(x) for x in r["last_after_del"]]
+        checks = (("size", got["size"] == r["size"] and got["star"] == r["size"]),
+                  ("Select-count", got["count"] == list(r["count"])),
+                  ("get-last", got["last"] == want_last),
+                  ("xml-roundtrip", got["rt_size"] == r["size"] and got["rt_same"]),
+                  ("deleteChildren", got["after_del"] == r["after_del"] and got["c0_gone"] and got["last_after_del"] == want_last2))
+        for name, ok in checks:
+            if not ok:
+                ctx.violation("Property:bulk:%s:%s" % (size, name), "n=%d k=%d: observed %s, expected %s" % (r["n"], r["k"], got, r), r)
+                break
+    guard(ctx, "bulk: a node with >= 10^5 children occurs", any(r["n"] >= 100000 for r in recs))
+
+
+# ------------------------------------------------------------------------------------------
+# part 9: csg_property executable on csg_defaults.xml (how csg reads its options)
+# ------------------------------------------------------------------------------------------
+
+def part_csg(ctx, exe, work):
+    src = os.path.join(vlib.REPO, "csg", "share", "xml", "csg_defaults.xml.in")
+    flat = xml_to_flat(src)
+    dfile = os.path.join(work, "csgdef.ndjson")
+    vlib.write_ndjson(dfile, [{"t": [{"d": n["d"], "n": n["n"], "v": n["v"]} for n in flat]}])
+    mod = "MCCsgQuick" if ctx.quick else "MCCsgThorough"
+    res = vlib.tlc("proptree", mod, cfg=mod + ".cfg", timeout=3000, env={"C11_CSGDEF": dfile})
+    vlib.tlc_must_hold(res, "CsgProp")
+    ctx.add_tlc(mod, res)
+    bindir = vlib.ensure_build(["csg_property"])
+    synth = [r for r in res.records if "synth" in r]
+    recs = [r for r in res.records if "q" in r]
+    if not synth or not recs:
+        raise vlib.InfraError("no csg_property vectors")
+    sfile = os.path.join(work, "synth.xml")
+    with open(sfile, "w") as f:
+        f.write(flat_to_xml([[n[0], n[1], n[2], {"hd": 0, "hc": 0, "hl": 0, "ls": 0, "un": 0}] for n in synth[0]["synth"]]))
+    stats = {"filter": 0, "with-path": 0, "fail": 0, "multi": 0, "defaults": 0}
+    for r in recs:
+        ctx.traces += 1
+        q = r["q"]
+        args = ["--file", src if r["src"] == "defaults" else sfile, "--path", q["path"], "--print", q["print"]]
+        if q["filter"]:
+            args += ["--filter", q["filter"]]
+        if q["mode"] == "short":
+            args.append("--short")
+        if q["mode"] == "with-path":
+            args.append("--with-path")
+        rc, out, err = vlib.run_driver(os.path.join(bindir, "csg_property"), args=args, timeout=60)
+        ctx.nontriv(("csgp", r["src"], json.dumps(q, sort_keys=True)))
+        what = "filter" if q["filter"] else ("wildcard" if "*" in q["path"] else "plain")
+        stats["filter"] += 1 if q["filter"] and r["exp"]["out"] else 0
+        stats["with-path"] += 1 if q["mode"] == "with-path" and r["exp"]["out"] else 0
+        stats["fail"] += 1 if r["exp"]["fail"] else 0
+        stats["multi"] += 1 if r["hits"] > 1 else 0
+        stats["defaults"] += 1 if r["src"] == "defaults" and r["exp"]["out"] else 0
+        if r["exp"]["fail"]:
+            if rc == 0:
+                ctx.violation("csg_property:%s:missing-field-ignored" % what, "%s: exit 0 although the filter field does not exist; output %r" % (q, out), r)
+            continue
+        if rc != 0:
+            ctx.violation("csg_property:%s:failed" % what, "%s: rc=%s %s" % (q, rc, err[-300:]), r)
+        elif out != r["exp"]["out"] and out != r["exp"]["alt"]:
+            ctx.violation("csg_property:%s:%s" % (what, q["mode"]), "%s on %s: printed %r, expected %r" % (q, r["src"], out[:400], r["exp"]["out"][:400]), r)
+    guard(ctx, "csg_property: filters that select, --with-path output, a missing filter field, multi-node selections and "
+               "queries on csg_defaults.xml all occur %s" % stats, all(v > 0 for v in stats.values()))
+    ctx.sample({"csg_property": recs[len(recs) // 3]})
 
 
 def replay_one(ctx, exe, work, obj):
@@ -661,7 +896,8 @@ def run(ctx):
             replay_one(ctx, exe, work, json.load(open(ctx.replay)))
             return
         import time
-        for part in (part_tiny, part_shipped, part_proptree, part_xml, part_literals):
+        for part in (part_tiny, part_shipped, part_proptree, part_xml, part_literals, part_session, part_load,
+                     part_bulk, part_csg):
             t0 = time.time()
             part(ctx, exe, work)
             vlib.log("%s: %.1fs, %d vectors + %d histories so far, %d violation key(s)"
